@@ -249,7 +249,7 @@ def write_workspace(tag, crates, seed=0, surface_kw=None):
                 % ", ".join(json.dumps(m) for m in members))
     os.makedirs(os.path.join(root, ".cargo"), exist_ok=True)
     with open(os.path.join(root, ".cargo", "config.toml"), "w") as f:
-        f.write("[build]\ntarget-dir = %s\n[net]\noffline = true\n" % json.dumps(TARGET))
+        f.write("[net]\noffline = true\n")
     shutil.copy(os.path.join(REPO, "Cargo.lock"), os.path.join(root, "Cargo.lock"))
     return root
 
